@@ -180,19 +180,13 @@ ExtrusionIgnoresLineCells(e) ==
   /\ GeoCells(Post(e)) = CodeExtrudeCells(e)
   /\ CodeExtrudeCells(e) # {ProductCell(c1, c2) : c1 \in GeoCells(e.pre[1]), c2 \in GeoCells(e.pre[2])}
 
-\* named deviation (the number of USED vertices is taken for the number of STORED points): to_meshtri(style='x')
-\* numbers its centre vertices from np.max(self.t) + 1 and tri * line shifts the vertex numbers of a layer by
-\* self.nvertices, while both store all points - an operand that stores points behind its highest used vertex gets
-\* cells attached to the wrong points.  When the result is exactly what the transcriptions ToMeshTriCells /
-\* ExtrudeTriLineCells of the code give for such an operand, the event is reported under
-\* Deviation_CountsUsedVerticesNotStoredPoints (and under nothing else)
 MaxUsed(m)       == MaxSet(UsedVertices(m))
-TrailingStray(m) == MaxUsed(m) < Len(m.p)
-\* mesh_quad_1.py:150-182  the points and cells of to_meshtri exactly as the code builds them: with style='x' the
-\* centre vertices are NUMBERED from np.max(self.t) + 1 (the highest used vertex + 1) but STORED behind all points
-ToMeshTriCells(m, style) ==
+\* mesh_quad_1.py:150-183  the points and cells of to_meshtri exactly as the code builds them (as repaired by commit
+\* e738c29): with style='x' the centre vertices are numbered from self.doflocs.shape[1] - behind ALL stored points,
+\* where they are stored.  first = the number the first centre vertex gets, minus one.
+ToMeshTriCellsFrom(m, style, first) ==
   LET nt == Len(m.t)
-      nv == MaxUsed(m)                                              \* 151: np.max(self.t) + 1   (0-based) = MaxUsed (1-based ids)
+      nv == first
       col(rows, k) == [i \in DOMAIN rows |-> m.t[k][rows[i]]]
   IN [ t |-> IF style = "x"                                         \* 150-159
              THEN [q \in 1..(4 * nt) |->
@@ -206,26 +200,24 @@ ToMeshTriCells(m, style) ==
              THEN m.p \o [k \in 1..nt |-> LET s == VSumSeq([i \in 1..4 |-> m.p[m.t[k][i]]]) IN
                                           [i \in DOMAIN s |-> s[i] \div 4]]
              ELSE m.p ]
-\* mesh_tri_1.py:393-419  tri * line exactly as the code builds it: every layer stores ALL points of the triangle
-\* mesh, but the vertex numbers of a layer are shifted by self.nvertices (the highest used vertex + 1)
-ExtrudeTriLineCells(m1, m2) ==
+ToMeshTriCells(m, style)    == ToMeshTriCellsFrom(m, style, Len(m.p))       \* 151-153: self.doflocs.shape[1]
+\* REGRESSION MODEL (before e738c29): centre vertices numbered from np.max(self.t) + 1, the highest USED vertex + 1
+ToMeshTriCellsOld(m, style) == ToMeshTriCellsFrom(m, style, MaxUsed(m))
+\* mesh_tri_1.py:393-419  tri * line exactly as the code builds it (as repaired by commit e738c29): every layer stores
+\* ALL points of the triangle mesh and the vertex numbers of a layer are shifted by that number (shift = p.shape[1])
+ExtrudeTriLineCellsBy(m1, m2, shift) ==
   LET zs  == SortedSeq({m2.p[v][1] : v \in DOMAIN m2.p})             \* 401: np.sort(other.p[0])
       np  == Len(m1.p)
-      nvu == MaxUsed(m1)                                            \* self.nvertices
+      nvu == shift
       nt  == Len(m1.t)
       nz  == Len(zs)
   IN [ p |-> [q \in 1..(np * nz) |-> m1.p[((q - 1) % np) + 1] \o <<zs[((q - 1) \div np) + 1]>>],      \* 402-406
        t |-> [q \in 1..(nt * (nz - 1)) |->                                                         \* 410-415
                 LET i == (q - 1) \div nt k == ((q - 1) % nt) + 1 IN
                 [j \in 1..3 |-> m1.t[k][j] + i * nvu] \o [j \in 1..3 |-> m1.t[k][j] + nvu + i * nvu]] ]
-
-CountsUsedNotStored(e) ==
-  \/ /\ e.op = "to_meshtri_x" /\ TrailingStray(Pre(e))
-     /\ LET r == ToMeshTriCells(Pre(e), "x")
-            srt(tt) == [k \in DOMAIN tt |-> SortedSeq(VSet(tt[k]))]        \* MeshTri1 sorts the vertices of its cells
-        IN srt(Post(e).t) = srt(r.t) /\ Post(e).p = r.p
-  \/ /\ e.op = "extrude" /\ Len(e.pre) = 2 /\ e.pre[1].kind = "tri" /\ e.pre[2].kind = "line" /\ TrailingStray(e.pre[1])
-     /\ LET r == ExtrudeTriLineCells(e.pre[1], e.pre[2]) IN Post(e).t = r.t /\ Post(e).p = r.p
+ExtrudeTriLineCells(m1, m2)    == ExtrudeTriLineCellsBy(m1, m2, Len(m1.p))      \* 412-416: self.p.shape[1]
+\* REGRESSION MODEL (before e738c29): the shift was self.nvertices, the highest USED vertex + 1
+ExtrudeTriLineCellsOld(m1, m2) == ExtrudeTriLineCellsBy(m1, m2, MaxUsed(m1))
 
 \* ---------------------------------------------------------------------------
 \* SameMeasure: exact integer measures * d!
@@ -320,9 +312,6 @@ SurgeryClauses(e) ==
   IF e.err # "" THEN [NoUnexpectedError |-> FALSE]
   ELSE IF e.op \in {"refine", "setup"} THEN [NoUnexpectedError |-> TRUE]   \* state change only (C12 judges refinement)
   ELSE IF ~SurgWellFormed(e) THEN [NoUnexpectedError |-> TRUE, WellFormed |-> FALSE]
-  ELSE IF CountsUsedNotStored(e)
-       THEN [ NoUnexpectedError |-> TRUE, WellFormed |-> TRUE, OperandsUnchanged |-> OperandsUnchanged(e),
-              Deviation_CountsUsedVerticesNotStoredPoints |-> FALSE ]
   ELSE LET cells   == CellsAreExpectedPointSets(e)
            devExt  == ~cells /\ ExtrusionIgnoresLineCells(e)
        IN [ NoUnexpectedError |-> TRUE, WellFormed |-> TRUE,
@@ -361,6 +350,11 @@ ConnOfMeshSlow(m) ==
   LET fe == BuildEntitiesImpl(m.t, CodeLF(m.kind), m.kind # "hex") IN
   [facets |-> fe.ents, t2f |-> fe.mapping, f2t |-> BuildInverseImpl(Len(m.t), fe.mapping, Len(fe.ents))]
 
+\* ascending sort of a sequence of integers, repetitions kept (np.sort)
+RECURSIVE SortInts2(_)
+SortInts2(q) == IF q = <<>> THEN <<>>
+                ELSE LET mn == MinSet(VSet(q)) i == FirstPos(q, mn)
+                     IN <<mn>> \o SortInts2(SubSeq(q, 1, i - 1) \o SubSeq(q, i + 1, Len(q)))
 \* np.unique of the entries of a sequence of cells: ascending sequence
 UniqueEntries(cells) == SortedSeq(UNION {VSet(cells[k]) : k \in DOMAIN cells})
 PosIn(seq, x) == CHOOSE i \in DOMAIN seq : seq[i] = x
@@ -400,8 +394,9 @@ AddImpl(m1, m2) ==
   LET n1 == Len(m1.p)
       r  == RemoveDupImpl(m1.p \o m2.p, m1.t \o [k \in DOMAIN m2.t |-> [i \in DOMAIN m2.t[k] |-> m2.t[k][i] + n1]])
   IN [kind |-> m1.kind, p |-> r.p, t |-> r.t, sub |-> <<>>, bnd |-> <<>>]
-\* mesh.py:1230-1259  remove_duplicate_nodes (as repaired by commit 0832543): p, t as above; the named boundaries
-\* are renumbered with the vertices - facet f becomes the facet of the result whose (sorted) vertices are ixb[facets[f]];
+\* mesh.py:1230-1263  remove_duplicate_nodes (as repaired by commits 0832543 and 229e2bb): p, t as above; the named
+\* boundaries are renumbered with the vertices - facet f becomes the facet of the result whose (sorted) vertices are
+\* ixb[facets[f]], and np.unique lists every facet once (two tagged copies of a facet may have been merged);
 \* sub-domains are kept (cells keep their order).  c = tables of tm, ConnT(_) computes those of the result.
 \* (0 stands for the KeyError of the dictionary lookup: only possible when a facet collapses)
 RemoveDuplicateNodesImpl(tm, c, ConnT(_)) ==
@@ -415,7 +410,7 @@ RemoveDuplicateNodesImpl(tm, c, ConnT(_)) ==
                  THEN CHOOSE g \in DOMAIN c2.facets : VSet(c2.facets[g]) = key ELSE 0
   IN [ tm |-> [out EXCEPT !.bnd = [i \in DOMAIN tm.bnd |->
                                      [name |-> tm.bnd[i].name,
-                                      ids  |-> [j \in DOMAIN tm.bnd[i].ids |-> newf(tm.bnd[i].ids[j])]]]],
+                                      ids  |-> SortedSeq({newf(tm.bnd[i].ids[j]) : j \in DOMAIN tm.bnd[i].ids})]]],
        c |-> c2 ]
 \* REGRESSION MODEL: remove_duplicate_nodes before commit 0832543 (finding #15) - replace(self, doflocs=p, t=t): the
 \* tag arrays were kept verbatim although the vertices, hence the facets, are renumbered.  MC_C18_dup.cfg must keep
@@ -428,9 +423,10 @@ RemoveUnusedNodesImpl(tm) ==
 
 \* (ToMeshTriCells / ExtrudeTriLineCells - the points and cells of to_meshtri and tri * line - are defined in part 1)
 \* mesh_quad_1.py:135-211  to_meshtri; c = tables of the quadrilateral mesh, ConnT(_) computes those of the result
-ToMeshTriImpl(tm, c, style, ConnT(_)) ==
+\* old = "" : the current code; "counts" / "repeat" : the regression models (cells before e738c29, lookup before 229e2bb)
+ToMeshTriImplWith(tm, c, style, ConnT(_), old) ==
   LET nt == Len(tm.t)
-      cells == ToMeshTriCells(tm, style)
+      cells == IF old = "counts" THEN ToMeshTriCellsOld(tm, style) ELSE ToMeshTriCells(tm, style)
       t  == cells.t
       p  == cells.p
       nb == IF style = "x" THEN 4 ELSE 2
@@ -439,12 +435,23 @@ ToMeshTriImpl(tm, c, style, ConnT(_)) ==
                  ids  |-> FlattenSeq([b \in 1..nb |-> [j \in DOMAIN tm.sub[i].ids |-> tm.sub[i].ids[j] + (b - 1) * nt]])]]
       m2 == [kind |-> "tri", p |-> p, t |-> t]
       c2 == ConnT(m2)
-      \* 186-195: for f in self.facets.T[np.sort(boundaries[k])]: first slot of mesh.facets equal to f
+      \* 186-195 (as repaired by commit 229e2bb): for f in self.facets.T[np.unique(boundaries[k])]: the slot of
+      \* mesh.facets equal to f - ONE iterator over the slots is shared by all lookups of a name, which is sound for
+      \* ascending, pairwise different facet ids (both facet tables are in lexicographic order)
       bnd == [i \in DOMAIN tm.bnd |->
                 LET fs == SortedSeq(VSet(tm.bnd[i].ids)) IN
                 [name |-> tm.bnd[i].name,
                  ids  |-> [j \in DOMAIN fs |-> FirstPos(c2.facets, c.facets[fs[j]])]]]
-  IN [tm |-> m2 @@ [sub |-> IF tm.sub = <<>> THEN <<>> ELSE sub, bnd |-> IF tm.bnd = <<>> THEN <<>> ELSE bnd], c |-> c2]
+      \* REGRESSION MODEL (before 229e2bb): np.sort instead of np.unique - a facet id listed twice is looked up twice,
+      \* the second time behind the slot the shared iterator has already passed: StopIteration (0 here)
+      bndOld == [i \in DOMAIN tm.bnd |->
+                LET fs == SortInts2(tm.bnd[i].ids) IN
+                [name |-> tm.bnd[i].name,
+                 ids  |-> [j \in DOMAIN fs |-> IF j > 1 /\ fs[j] = fs[j - 1] THEN 0
+                                               ELSE FirstPos(c2.facets, c.facets[fs[j]])]]]
+      b2  == IF old = "repeat" THEN bndOld ELSE bnd
+  IN [tm |-> m2 @@ [sub |-> IF tm.sub = <<>> THEN <<>> ELSE sub, bnd |-> IF tm.bnd = <<>> THEN <<>> ELSE b2], c |-> c2]
+ToMeshTriImpl(tm, c, style, ConnT(_)) == ToMeshTriImplWith(tm, c, style, ConnT, "")
 
 \* mesh_hex_1.py:157-168 / mesh_wedge_1.py:37-46  to_meshtet; tags are not carried
 HexTetRows   == << <<1,2,4,5>>, <<1,4,3,5>>, <<3,4,5,7>>, <<4,5,7,8>>, <<4,5,6,8>>, <<2,4,5,6>> >>
